@@ -70,7 +70,9 @@ def run_case(desc):
         yt[:] = yt[0]            # all labels identical: the empirical label standard deviation is exactly 0
     lab = np.zeros(n, bool)
     lab[rng.choice(n, size=min(desc["nl"], n), replace=False)] = True
-    y = np.where(lab, yt, np.nan)
+    # every third case marks missing targets by a reserved number: the sentinel must not enter any label statistic
+    ml = -7.5 if (desc["seed"] >> 9) % 3 == 0 else np.nan
+    y = np.where(lab, yt, ml)
     Q = [X[:3], np.round(rng.randn(3, d), 3)]
     if desc["far"] == "far":
         Q.append(np.round(rng.randn(3, d), 3) + 500.0)
@@ -82,9 +84,10 @@ def run_case(desc):
             Q.append(q)
     Q = np.vstack(Q)
     reg = _make(name, rng)
+    reg.set_params(missing_label=ml)
     viol = []
     comp = type(reg).__name__ + ("(%s)" % type(reg.estimator).__name__ if hasattr(reg, "estimator") else "")
-    ctx = "reg=%s labelled=%d n=%d" % (name, int(lab.sum()), n)
+    ctx = "reg=%s labelled=%d n=%d missing_label=%r" % (name, int(lab.sum()), n, ml)
 
     def add(kind, detail):
         if not any(v["kind"] == kind for v in viol):
